@@ -217,6 +217,64 @@ theorem replaceMapMut_eq (o : Onto) (xs : List Nat) : replaceMapMut o xs = repla
   | nil => rfl
   | cons a xs ih => simp only [replaceMapMut, replaceMap, ih]
 
+/-! ### a member that is not a term: the (non short-circuiting) loops panic -/
+
+theorem not_resolves_cons {o : Onto} {a : Nat} {xs : List Nat} (h : ¬ Resolves o (a :: xs)) :
+    o.get a = none ∨ ((∃ t, o.get a = some t) ∧ ¬ Resolves o xs) := by
+  cases hg : o.get a with
+  | none => exact Or.inl rfl
+  | some t =>
+    refine Or.inr ⟨⟨t, rfl⟩, fun hr => h ?_⟩
+    intro x hx
+    rcases List.mem_cons.1 hx with rfl | hx
+    · simp [hg]
+    · exact hr x hx
+
+theorem obsoleteFilter_panic (o : Onto) (xs : List Nat) (h : ¬ Resolves o xs) :
+    obsoleteFilter o xs = .panic := by
+  induction xs with
+  | nil => exact absurd (fun _ hx => by cases hx) h
+  | cons a xs ih =>
+    rcases not_resolves_cons h with hg | ⟨⟨t, hg⟩, hr⟩
+    · simp [obsoleteFilter, hg]
+    · simp [obsoleteFilter, hg, ih hr]
+
+theorem modifierFilter_panic (o : Onto) (xs : List Nat) (h : ¬ Resolves o xs) :
+    modifierFilter o xs = .panic := by
+  induction xs with
+  | nil => exact absurd (fun _ hx => by cases hx) h
+  | cons a xs ih =>
+    rcases not_resolves_cons h with hg | ⟨⟨t, hg⟩, hr⟩
+    · simp [modifierFilter, hg]
+    · simp [modifierFilter, hg, ih hr]
+
+theorem replaceMap_panic (o : Onto) (xs : List Nat) (h : ¬ Resolves o xs) :
+    replaceMap o xs = .panic := by
+  induction xs with
+  | nil => exact absurd (fun _ hx => by cases hx) h
+  | cons a xs ih =>
+    rcases not_resolves_cons h with hg | ⟨⟨t, hg⟩, hr⟩
+    · simp [replaceMap, hg]
+    · simp [replaceMap, hg, ih hr]
+
+theorem annUnion_panic (o : Onto) (k : Kind) (xs : List Nat) (h : ¬ Resolves o xs) (acc : List Nat) :
+    annUnion o k xs acc = .panic := by
+  induction xs generalizing acc with
+  | nil => exact absurd (fun _ hx => by cases hx) h
+  | cons a xs ih =>
+    rcases not_resolves_cons h with hg | ⟨⟨t, hg⟩, hr⟩
+    · simp [annUnion, hg]
+    · simp [annUnion, hg, ih hr]
+
+theorem categoriesAcc_panic (o : Onto) (xs : List Nat) (h : ¬ Resolves o xs) (m : List (Nat × Nat)) :
+    categoriesAcc o xs m = .panic := by
+  induction xs generalizing m with
+  | nil => exact absurd (fun _ hx => by cases hx) h
+  | cons a xs ih =>
+    rcases not_resolves_cons h with hg | ⟨⟨t, hg⟩, hr⟩
+    · simp [categoriesAcc, hg]
+    · simp [categoriesAcc, hg, ih hr]
+
 /-! ### unions -/
 
 theorem annUnion_ok (o : Onto) (k : Kind) (xs : List Nat) (h : Resolves o xs) (acc : List Nat)
